@@ -943,6 +943,34 @@ func (e *specEnv) call(n *ast.CallExpr) (SVal, error) {
 		}
 		return sv(False, boolT), nil
 	}
+	if uf, ok := fx.eng.contracts.UFuns[name]; ok && name != "" {
+		if len(n.Args) != len(uf.Params) {
+			return SVal{}, fmt.Errorf("ufun %s expects %d arguments", name, len(uf.Params))
+		}
+		var ss []Sort
+		var ts []Term
+		for i, p := range uf.Params {
+			s, err := specSort(p.Type)
+			if err != nil {
+				return SVal{}, err
+			}
+			a, err := argT(i)
+			if err != nil {
+				return SVal{}, err
+			}
+			if a.Sort != s {
+				return SVal{}, fmt.Errorf("ufun %s: argument %d has sort %s, want %s", name, i, a.Sort, s)
+			}
+			ss = append(ss, s)
+			ts = append(ts, a)
+		}
+		rs, err := specSort(uf.Result)
+		if err != nil {
+			return SVal{}, err
+		}
+		f := fx.ctx.DeclFun("ufun!"+name, ss, rs)
+		return sv(App(rs, f, ts...), specGoType(uf.Result)), nil
+	}
 	// user-defined spec function
 	if sf, ok := fx.eng.contracts.Specs[name]; ok && name != "" {
 		if len(n.Args) != len(sf.Params) {
